@@ -120,6 +120,9 @@ func (b *Builder) Pop() {
 					}
 				}
 			}
+		} else if 1 < len(b.starts) && b.starts[len(b.starts)-2] < 0 {
+			// An object that is a member of an object is already set in the parent.
+			b.stack = b.stack[:len(b.stack)-1]
 		}
 		b.starts = b.starts[:len(b.starts)-1]
 	}
